@@ -36,8 +36,10 @@ class Contract:
     def __init__(
         self, key, src=None, params=None, defaults=None, cases=(), requires=None, ensures=(),
         canaries=(), loops=None, modifies=(), allocates=False, result=None, inline=False,
-        custom=None, is_property=False, label="proved", doc="", witness=None, local_kinds=None, slice=None,
+        custom=None, is_property=False, label="proved", doc="", witness=None, local_kinds=None, slice=None, overrides=None, options=None,
     ):
+        self.options = options or {}  # encoder switches for this function, e.g. {"mul_uf": True}
+        self.overrides = overrides or {}  # key -> Contract used instead of the registry's while verifying THIS function
         self.slice = slice  # fn(function AST) -> list of statements: verify only this slice of the real function
         self.local_kinds = local_kinds or {}
         if witness is None:
@@ -160,6 +162,8 @@ def verify(contract, registry, imports=None, timeout_ms=None, only=None, paralle
     """Generate and discharge every obligation of one function under contract."""
     rep = FunctionReport(contract.key)
     t0 = time.time()
+    if contract.overrides:
+        registry = {**registry, **contract.overrides}
     fnode = find_def(*contract.src)
     rep.src_hash = ast_hash(fnode)
     rep.src_lines = (fnode.lineno, fnode.end_lineno)
@@ -167,6 +171,7 @@ def verify(contract, registry, imports=None, timeout_ms=None, only=None, paralle
     canary_hits = {nm: False for nm, _ in contract.canaries}
     for case in cases:
         ex = Interp(registry, imports=imports)
+        ex.options = dict(contract.options)
         st = State()
         st.init_heap()
         try:
@@ -247,12 +252,19 @@ def verify(contract, registry, imports=None, timeout_ms=None, only=None, paralle
 
 
 _G = {}
+# Set by vf/main.py before it forks the job processes: one slot per core, shared by every job of a check, so that the solvers'
+# wall-clock budgets are not eaten by oversubscription (several functions are discharged by their own pools at the same time).
+SOLVER_SLOTS = None
 
 
 def _one(i):
     ob = _G["obs"][i]
     contract, entries = _G["contract"], _G["entries"]
-    discharge(ob, timeout_ms=_G["timeout_ms"])
+    if SOLVER_SLOTS is not None:
+        with SOLVER_SLOTS:
+            discharge(ob, timeout_ms=_G["timeout_ms"])
+    else:
+        discharge(ob, timeout_ms=_G["timeout_ms"])
     d = {"i": i, "result": ob.result, "backend": ob.backend, "time_s": ob.time_s, "reason": str(ob.reason)}
     if ob.result == "sat":
         # prefer a small counter-model (short paths) for replay: re-ask with size hints, keep the first model otherwise
